@@ -44,10 +44,10 @@ def hash_order_iterations(fns):
 
 def shared_captures(closure):
     bad = []
-    for cap, t in zip(closure.body.get("captures", []), closure.body.get("upvar_tys", [])):
-        s = t["s"]
+    for sl in closure.capture_slots():
+        s = sl["ty"]["s"]
         if any(b in s for b in BANNED_CAPTURES) or s.startswith("&"):
-            bad.append("%s: %s" % (cap, s))
+            bad.append("%s: %s" % (".".join(x[1] for x in sl["steps"]), s))
     return bad
 
 
